@@ -29,13 +29,13 @@ static void buildLone(RandSystem& rs, Rng& r, int nb) {
 }
 int main(int argc, char** argv) {
     unsigned long long seed = std::strtoull(argv[1], 0, 10); int nsys = std::atoi(argv[2]); int maxb = argc > 3 ? std::atoi(argv[3]) : 6;
-    Rng r(seed);
+    Rng r(seed); Rng ropt(seed ^ 0x5bd1e995ULL);
     const Real h = 1e-3; const Real cf[4] = { 1.0 / 12, -8.0 / 12, 8.0 / 12, -1.0 / 12 }; const Real st[4] = { -2, -1, 1, 2 };
     // k = -2, -1: fixed regression cases (fix a24f10ba; Coq witness Line_NDot_prefix_refuted): one LineOrientation / FreeLine body,
     // quaternion mode, q = identity, u = (1,0,..), NDot applied to W = (0,1,..)
     for (int k = -2; k < nsys; ++k) {
         const bool reg = k < 0;
-        RandSystem rs; int nb = r.I(1, maxb); int shape = r.I(0, 2);
+        RandSystem rs; rs.optRng = &ropt; int nb = r.I(1, maxb); int shape = r.I(0, 2);
         // every other system is built from a single mobilizer type so that a failure names its type
         int only = (k >= 0 && k % 2 == 0) ? (k / 2) % NMOBTYPES : -1;
         if (reg) { only = k == -2 ? 13 : 14; nb = 1; }
